@@ -1,17 +1,20 @@
-// Correspondence harness for C13: the real Server with one client created by Server::pair
-// (a connected socket pair through the Server API), the kernel simulated by interposition
-// (serverwrite_kernel.cpp).  Operations are executed between run() calls or, when queued with
-// `react`, from inside the client's callbacks.  One run() call = Server::interrupt() followed by
-// Server::run(): the closing-clients pass, at most one poll event for the client, the
-// closing-clients pass again, then the interrupt.
+// Correspondence harness for C13: the real Server with one client (or, case config `two`, two clients
+// A and B) created by Server::pair (connected socket pairs through the Server API), the kernel
+// simulated by interposition (serverwrite_kernel.cpp).  Operations are executed between run() calls
+// or, when queued with `react`, from inside the clients' callbacks.  One run() call =
+// Server::interrupt() followed by Server::run(): closing-clients pass, poll, dispatch, ... until the
+// interrupt (or an event without flags) ends it.
 //
-//   write <hex> <outcome>     client->write                  outcome: wb | s<k> | full | zero | err
-//   ev <mask> <outcome>       run() with scripted readiness  mask: letters of i(n) o(ut) h(up), or -
-//   poll <outcome>            run() with the real readiness of the socket (epoll_wait, timeout 0)
-//   tick                      run() without readiness
-//   suspend | resume | read <max> | remove
-//   peerwrite <hex> | peerread | peerclose
-//   react <onRead|onWrite|onClosed> <op...>   queue an operation for the next such callback
+//   [A.|B.]write <hex> <outcome>    client->write(data, size, &postponed)   outcome: wb | s<k> | full | zero | err
+//   [A.|B.]write0 <hex> <outcome>   client->write(data, size) - no postponed pointer
+//   [A.|B.]ev <mask> <outcome>      run() with scripted readiness of that client   mask: letters of
+//                                   i(n) o(ut) h(up) d(rdhup) e(rr), or -
+//   evs <A:mask,B:mask> <outcome>*  run() with ONE epoll round reporting these clients in this order;
+//                                   the outcomes answer the send calls of the run, in order
+//   poll <outcome>                  run() with the real readiness of the sockets (epoll_wait, timeout 0)
+//   tick [outcome*]                 run() without readiness (two clients: events collected earlier may still be cached)
+//   [A.|B.]suspend | resume | read <max> | remove | peerwrite <hex> | peerread | peerclose
+//   react [A.|B.]<onRead|onWrite|onClosed> <op...>   queue an operation for the next such callback
 #include "vh.hpp"
 #include <errno.h>
 #include <sys/socket.h>
@@ -36,42 +39,50 @@ static void s_hex(Str& s, const unsigned char* b, size_t n)
 }
 
 // what one operation shows
-struct Ctx { Str cbs, tx, sends, data; const char* ret; long num; int hasnum; bool dead; };
+struct Ctx { Str cbs, tx[2], sends, data; const char* ret; long num; int hasnum; bool dead; };
 static void ctx_init(Ctx& c) { memset(&c, 0, sizeof(c)); c.ret = "-"; }
-static void ctx_free(Ctx& c) { free(c.cbs.p); free(c.tx.p); free(c.sends.p); free(c.data.p); }
+static void ctx_free(Ctx& c) { free(c.cbs.p); free(c.tx[0].p); free(c.tx[1].p); free(c.sends.p); free(c.data.p); }
+
+static int nclients = 1;        // 2 in a `two` case
+static Server* server = 0;
+static Server::Client* client[2] = {0, 0};
+static Socket* peer[2] = {0, 0};
+static bool dead[2] = {false, false};       // client removed
+static bool peer_closed[2] = {false, false};
+static long caseno = 0;
+static Ctx* cur = 0;            // operation in progress
+
 static void collect(Ctx& c)
 {
-  unsigned char* p; size_t n = sk_take_tx(&p);
-  s_hex(c.tx, p, n);
+  for(int i = 0; i < nclients; ++i) {
+    unsigned char* p; size_t n = sk_take_tx(i, &p);
+    s_hex(c.tx[i], p, n);
+  }
   const char* l = sk_take_sendlog();
   if(l[0]) { if(c.sends.n) s_add(c.sends, ","); s_add(c.sends, l); }
 }
 
-static Server* server = 0;
-static Server::Client* client = 0;
-static Socket* peer = 0;
-static bool dead = false;       // client removed
-static bool peer_closed = false;
-static long caseno = 0;
-static Ctx* cur = 0;            // operation in progress
-
 #define NREACT 64
 struct Reaction { char* line; };
-static Reaction reactq[3][NREACT]; static int reacth[3], reactt[3];
+static Reaction reactq[2][3][NREACT]; static int reacth[2][3], reactt[2][3];
 static const char* cbname[3] = {"onRead", "onWrite", "onClosed"};
 
 static void exec_line(char* line, bool nested);
 
-static void on_callback(int which)
+static void on_callback(int idx, int which)
 {
-  if(cur) { if(cur->cbs.n) s_add(cur->cbs, ","); s_add(cur->cbs, cbname[which]); }
-  if(reacth[which] < reactt[which]) {
-    char* line = reactq[which][reacth[which]++].line;
+  if(cur) {
+    if(cur->cbs.n) s_add(cur->cbs, ",");
+    if(nclients == 2) s_add(cur->cbs, idx ? "B." : "A.");
+    s_add(cur->cbs, cbname[which]);
+  }
+  if(reacth[idx][which] < reactt[idx][which]) {
+    char* line = reactq[idx][which][reacth[idx][which]++].line;
     Ctx* outer = cur;
     if(outer) collect(*outer);          // what the outer operation caused so far stays with it
-    int ok; long kk; sk_get_outcome(&ok, &kk);   // the reaction has its own scripted send outcome;
+    sk_outcomes saved; sk_get_outcomes(&saved);   // the reaction has its own scripted send outcome;
     exec_line(line, true);
-    sk_set_outcome(ok, kk);             // the outer operation keeps its (possibly unconsumed) one
+    sk_put_outcomes(&saved);            // the outer operation keeps its (possibly unconsumed) ones
     free(line);
     cur = outer;
   }
@@ -79,41 +90,67 @@ static void on_callback(int which)
 
 struct Cb : public Server::Client::ICallback
 {
-  void onRead() { on_callback(0); }
-  void onWrite() { on_callback(1); }
-  void onClosed() { on_callback(2); }
-} cbobj;
+  int idx;
+  void onRead() { on_callback(idx, 0); }
+  void onWrite() { on_callback(idx, 1); }
+  void onClosed() { on_callback(idx, 2); }
+} cbobj[2];
+
+static void print_mask(int i)
+{
+  if(!sk_registered(i)) { printf("-"); return; }
+  unsigned m = sk_reg_mask(i);
+  if(!(m & (EPOLLIN | EPOLLOUT))) printf("0");
+  if(m & EPOLLIN) printf("r");
+  if(m & EPOLLOUT) printf("w");
+  if(m & EPOLLRDHUP) printf("d");
+}
 
 static void print_line(const char* name, Ctx& c)
 {
   collect(c);
   printf("%ld %s r=%s n=", caseno, name, c.ret);
   if(c.hasnum) printf("%ld", c.num); else printf("-");
-  printf(" cb=%s tx=%s sends=%s data=%s%s", c.cbs.n ? c.cbs.p : "-", c.tx.n ? c.tx.p : "-", c.sends.n ? c.sends.p : "-",
-         c.data.n ? c.data.p : "-", c.dead ? " dead" : "");
-  if(dead) printf(" | sb=- susp=- | k=-\n");
-  else {
-    printf(" | sb=%llu susp=%d | k=", (unsigned long long)client->getSendBufferSize(), client->isSuspended() ? 1 : 0);
-    if(!sk_registered()) printf("-");
-    else {
-      unsigned m = sk_reg_mask();
-      if(!(m & (EPOLLIN | EPOLLOUT))) printf("0");
-      if(m & EPOLLIN) printf("r");
-      if(m & EPOLLOUT) printf("w");
-    }
-    printf("\n");
+  printf(" cb=%s tx=%s", c.cbs.n ? c.cbs.p : "-", c.tx[0].n ? c.tx[0].p : "-");
+  if(nclients == 2) printf("/%s", c.tx[1].n ? c.tx[1].p : "-");
+  printf(" sends=%s data=%s%s", c.sends.n ? c.sends.p : "-", c.data.n ? c.data.p : "-", c.dead ? " dead" : "");
+  printf(" | sb=");
+  for(int i = 0; i < nclients; ++i) {
+    if(i) printf("/");
+    if(dead[i]) printf("-"); else printf("%llu", (unsigned long long)client[i]->getSendBufferSize());
   }
+  printf(" susp=");
+  for(int i = 0; i < nclients; ++i) {
+    if(i) printf("/");
+    if(dead[i]) printf("-"); else printf("%d", client[i]->isSuspended() ? 1 : 0);
+  }
+  printf(" | k=");
+  for(int i = 0; i < nclients; ++i) {
+    if(i) printf("/");
+    if(dead[i]) printf("-"); else print_mask(i);
+  }
+  printf("\n");
   fflush(stdout);
 }
 
-static void set_outcome(const char* t)
+static void parse_outcome(const char* t, int* kind, long* k)
 {
-  if(!strcmp(t, "wb")) sk_set_outcome(SK_WOULDBLOCK, 0);
-  else if(!strcmp(t, "full")) sk_set_outcome(SK_FULL, 0);
-  else if(!strcmp(t, "zero")) sk_set_outcome(SK_ZERO, 0);
-  else if(!strcmp(t, "err")) sk_set_outcome(SK_ERROR, 0);
-  else if(t[0] == 's') sk_set_outcome(SK_SENT, atol(t + 1));
-  else sk_set_outcome(SK_NONE, 0);
+  *k = 0;
+  if(!strcmp(t, "wb")) *kind = SK_WOULDBLOCK;
+  else if(!strcmp(t, "full")) *kind = SK_FULL;
+  else if(!strcmp(t, "zero")) *kind = SK_ZERO;
+  else if(!strcmp(t, "err")) *kind = SK_ERROR;
+  else if(t[0] == 's') { *kind = SK_SENT; *k = atol(t + 1); }
+  else *kind = SK_NONE;
+}
+static void set_outcome(const char* t) { int kind; long k; parse_outcome(t, &kind, &k); sk_set_outcome(kind, k); }
+
+static unsigned parse_mask(const char* p, const char* end)
+{
+  unsigned m = 0;
+  for(; p < end && *p; ++p)
+    m |= *p == 'i' ? EPOLLIN : *p == 'o' ? EPOLLOUT : *p == 'h' ? EPOLLHUP : *p == 'd' ? EPOLLRDHUP : *p == 'e' ? EPOLLERR : 0;
+  return m;
 }
 
 static void run_once()
@@ -127,93 +164,123 @@ static void exec_line(char* line, bool nested)
 {
   vh::Tok t; vh::split(line, t);
   if(t.n == 0) return;
-  const char* opn = t.v[0];
+  const char* name = t.v[0];              // as printed
+  int idx = 0;
+  const char* opn = name;
+  if((opn[0] == 'A' || opn[0] == 'B') && opn[1] == '.') { idx = opn[0] == 'B' ? 1 : 0; opn += 2; }
+  if(idx >= nclients) { fprintf(stderr, "no client B in this case\n"); abort(); }
   Ctx c; ctx_init(c);
   cur = &c;
-  bool is_run = !strcmp(opn, "ev") || !strcmp(opn, "poll") || !strcmp(opn, "tick");
+  bool is_run = !strcmp(opn, "ev") || !strcmp(opn, "evs") || !strcmp(opn, "poll") || !strcmp(opn, "tick");
   if(!strcmp(opn, "react")) {
-    int which = !strcmp(t.v[1], "onRead") ? 0 : !strcmp(t.v[1], "onWrite") ? 1 : 2;
+    const char* cbn = t.v[1]; int ci = 0;
+    if((cbn[0] == 'A' || cbn[0] == 'B') && cbn[1] == '.') { ci = cbn[0] == 'B' ? 1 : 0; cbn += 2; }
+    int which = !strcmp(cbn, "onRead") ? 0 : !strcmp(cbn, "onWrite") ? 1 : 2;
     Str s; memset(&s, 0, sizeof(s));
     for(int i = 2; i < t.n; ++i) { if(i > 2) s_add(s, " "); s_add(s, t.v[i]); }
-    if(reactt[which] < NREACT) reactq[which][reactt[which]++].line = s.p; else free(s.p);
+    if(reactt[ci][which] < NREACT) reactq[ci][which][reactt[ci][which]++].line = s.p; else free(s.p);
     printf("%ld react\n", caseno); fflush(stdout);
     ctx_free(c); cur = 0;
     return;
   }
-  if(dead || (nested && is_run)) {        // the object is gone (or run() would be re-entered): nothing is executed
+  bool run_dead = nclients == 1 ? dead[0] : false;    // one client: a run() of a server without clients shows nothing
+  if((is_run && (nested || run_dead)) || (!is_run && dead[idx])) {
+    // the object is gone (or run() would be re-entered): nothing is executed
     c.dead = true;
-  } else if(!strcmp(opn, "write")) {
+  } else if(!strcmp(opn, "write") || !strcmp(opn, "write0")) {
     size_t n; unsigned char* d = vh::unhex(t.v[1], n);
     set_outcome(t.v[2]);
-    usize postponed = 12345;
-    bool r = client->write(d, n, &postponed);
+    bool r;
+    if(!strcmp(opn, "write")) {
+      usize postponed = 12345;
+      r = client[idx]->write(d, n, &postponed);
+      c.num = (long)postponed; c.hasnum = 1;
+    } else
+      r = client[idx]->write(d, n);
     sk_set_outcome(SK_NONE, 0);
     free(d);
-    c.ret = r ? "1" : "0"; c.num = (long)postponed; c.hasnum = 1;
+    c.ret = r ? "1" : "0";
   } else if(is_run) {
     if(!strcmp(opn, "ev")) {
-      unsigned m = 0;
-      for(const char* p = t.v[1]; *p; ++p) m |= *p == 'i' ? EPOLLIN : *p == 'o' ? EPOLLOUT : *p == 'h' ? (EPOLLHUP | EPOLLRDHUP) : 0;
       set_outcome(t.v[2]);
-      sk_arm_event(SK_EV_SCRIPT, m);
+      sk_arm_event(SK_EV_SCRIPT);
+      sk_add_event(idx, parse_mask(t.v[1], t.v[1] + strlen(t.v[1])));
+    } else if(!strcmp(opn, "evs")) {
+      sk_set_outcome(SK_NONE, 0);
+      for(int i = 2; i < t.n; ++i) { int kind; long k; parse_outcome(t.v[i], &kind, &k); sk_push_outcome(kind, k); }
+      sk_arm_event(SK_EV_SCRIPT);
+      for(const char* p = t.v[1]; *p;) {        // A:io,B:i
+        const char* e = strchr(p, ','); if(!e) e = p + strlen(p);
+        if((p[0] == 'A' || p[0] == 'B') && p[1] == ':' && (p[0] == 'A' || nclients == 2))
+          sk_add_event(p[0] == 'B' ? 1 : 0, parse_mask(p + 2, e));
+        p = *e ? e + 1 : e;
+      }
     } else if(!strcmp(opn, "poll")) {
       set_outcome(t.v[1]);
-      sk_arm_event(SK_EV_REAL, 0);
-    } else
-      sk_arm_event(SK_EV_TICK, 0);
+      sk_arm_event(SK_EV_REAL);
+    } else {                                    // tick [outcome*]: cached events of an earlier round may still be dispatched
+      sk_set_outcome(SK_NONE, 0);
+      for(int i = 1; i < t.n; ++i) { int kind; long k; parse_outcome(t.v[i], &kind, &k); sk_push_outcome(kind, k); }
+      sk_arm_event(SK_EV_TICK);
+    }
     run_once();
     sk_set_outcome(SK_NONE, 0);
-  } else if(!strcmp(opn, "suspend")) client->suspend();
-  else if(!strcmp(opn, "resume")) client->resume();
+  } else if(!strcmp(opn, "suspend")) client[idx]->suspend();
+  else if(!strcmp(opn, "resume")) client[idx]->resume();
   else if(!strcmp(opn, "read")) {
     long max = atol(t.v[1]);
     unsigned char* buf = (unsigned char*)malloc(max > 0 ? (size_t)max : 1);
     usize size = 54321;
-    bool r = client->read(buf, (usize)max, size);
+    bool r = client[idx]->read(buf, (usize)max, size);
     c.ret = r ? "1" : "0"; c.num = (long)size; c.hasnum = 1;
     if(r) s_hex(c.data, buf, size);
     free(buf);
   } else if(!strcmp(opn, "remove")) {
-    server->remove(*client);
-    sk_detach_client();
-    dead = true; client = 0;
+    server->remove(*client[idx]);
+    sk_detach_client(idx);
+    dead[idx] = true; client[idx] = 0;
   } else {
     c.dead = false;
   }
   // peer side (also possible after the client is gone)
   if(!strcmp(opn, "peerwrite")) {
-    c.dead = dead;
+    c.dead = dead[idx];
     size_t n; unsigned char* d = vh::unhex(t.v[1], n);
-    if(!peer_closed && !dead && n) {
-      ssize_t w = ::send((int)peer->getFileDescriptor(), d, n, MSG_NOSIGNAL | MSG_DONTWAIT);
+    if(!peer_closed[idx] && !dead[idx] && n) {
+      ssize_t w = ::send((int)peer[idx]->getFileDescriptor(), d, n, MSG_NOSIGNAL | MSG_DONTWAIT);
       if(w != (ssize_t)n) { fprintf(stderr, "peerwrite: short write\n"); abort(); }
     }
     free(d);
   } else if(!strcmp(opn, "peerread") || !strcmp(opn, "peerclose")) {
-    c.dead = dead;
-    if(!peer_closed && !dead) {
-      sk_peer_drain();
-      unsigned char* p; size_t n = sk_take_peer(&p);
+    c.dead = dead[idx];
+    if(!peer_closed[idx] && !dead[idx]) {
+      sk_peer_drain(idx);
+      unsigned char* p; size_t n = sk_take_peer(idx, &p);
       s_hex(c.data, p, n);
-      if(!strcmp(opn, "peerclose")) { sk_peer_close(); peer->close(); peer_closed = true; }
+      if(!strcmp(opn, "peerclose")) { sk_peer_close(idx); peer[idx]->close(); peer_closed[idx] = true; }
     }
   }
-  print_line(opn, c);
+  print_line(name, c);
   ctx_free(c);
   cur = 0;
 }
 
-static void begin(long c, vh::Tok&)
+static void begin(long c, vh::Tok& t)
 {
   caseno = c;
   sk_reset();
-  for(int w = 0; w < 3; ++w) { while(reacth[w] < reactt[w]) free(reactq[w][reacth[w]++].line); reacth[w] = reactt[w] = 0; }
-  delete server; delete peer;
-  server = new Server; peer = new Socket;
-  dead = false; peer_closed = false;
-  client = server->pair(cbobj, *peer);
-  if(!client) { fprintf(stderr, "pair failed\n"); abort(); }
-  sk_attach((int)client->getSocket().getFileDescriptor(), (int)peer->getFileDescriptor());
+  for(int i = 0; i < 2; ++i)
+    for(int w = 0; w < 3; ++w) { while(reacth[i][w] < reactt[i][w]) free(reactq[i][w][reacth[i][w]++].line); reacth[i][w] = reactt[i][w] = 0; }
+  delete server; delete peer[0]; delete peer[1];
+  nclients = (t.n > 2 && !strcmp(t.v[2], "two")) ? 2 : 1;
+  server = new Server; peer[0] = new Socket; peer[1] = nclients == 2 ? new Socket : 0;
+  for(int i = 0; i < 2; ++i) { dead[i] = false; peer_closed[i] = false; client[i] = 0; cbobj[i].idx = i; }
+  for(int i = 0; i < nclients; ++i) {
+    client[i] = server->pair(cbobj[i], *peer[i]);
+    if(!client[i]) { fprintf(stderr, "pair failed\n"); abort(); }
+    sk_attach(i, (int)client[i]->getSocket().getFileDescriptor(), (int)peer[i]->getFileDescriptor());
+  }
+  sk_tag_sends(nclients == 2);
 }
 
 static void op(long, long, vh::Tok& t)
@@ -226,17 +293,21 @@ static void op(long, long, vh::Tok& t)
 
 static void end(long c)
 {
-  // what the peer has received and not yet reported
-  Ctx x; ctx_init(x);
-  if(!peer_closed) {
-    sk_peer_drain();
-    unsigned char* p; size_t n = sk_take_peer(&p);
-    s_hex(x.data, p, n);
+  // what the peers have received and not yet reported
+  printf("%ld end data=", c);
+  for(int i = 0; i < nclients; ++i) {
+    Str x; memset(&x, 0, sizeof(x));
+    if(!peer_closed[i]) {
+      sk_peer_drain(i);
+      unsigned char* p; size_t n = sk_take_peer(i, &p);
+      s_hex(x, p, n);
+    }
+    printf("%s%s", i ? "/" : "", x.n ? x.p : "-");
+    free(x.p);
   }
-  printf("%ld end data=%s\n", c, x.data.n ? x.data.p : "-");
-  ctx_free(x);
-  delete server; server = 0; client = 0;
-  delete peer; peer = 0;
+  printf("\n");
+  delete server; server = 0; client[0] = client[1] = 0;
+  delete peer[0]; delete peer[1]; peer[0] = peer[1] = 0;
   sk_reset();
 }
 
